@@ -141,3 +141,48 @@ func verifNumTickers() int          { return 0 }
 func verifTickerName(i int) string  { return "" }
 func verifClockSymbolic()           {}
 func verifClockSet(sec int64)       {}
+
+// ---- file-system / crash-point support (native twins)
+var verifCrashCounter int
+var verifCrashTarget = -1
+
+func verifCrashHere(label string) bool {
+	if verifCrashTarget < 0 {
+		verifLoad()
+		verifCrashTarget = int(verifReplay.Model["crashpoint#0"])
+	}
+	verifCrashCounter++
+	return verifCrashTarget != 0 && verifCrashCounter == verifCrashTarget
+}
+func verifFreezeOthers()    {}
+func verifFsHooked()        {}
+func verifFsUnhooked() bool { return false }
+func verifFsMutations() int { return 0 }
+func verifFsDump()          {}
+func verifTempDir() string {
+	d, err := os.MkdirTemp("", "verif-spool")
+	if err != nil {
+		panic(err)
+	}
+	return d
+}
+
+// verifSnapshotDir copies the directory (the state a crash at this instant would leave behind).
+func verifSnapshotDir(dir string) string {
+	d, err := os.MkdirTemp("", "verif-snap")
+	if err != nil {
+		panic(err)
+	}
+	ents, _ := os.ReadDir(dir)
+	for _, e := range ents {
+		b, err := os.ReadFile(dir + "/" + e.Name())
+		if err == nil {
+			os.WriteFile(d+"/"+e.Name(), b, 0600)
+		}
+	}
+	return d
+}
+
+// non-short-circuit boolean connectives (no path fork in the engine)
+func verifOr(a, b bool) bool  { return a || b }
+func verifAnd(a, b bool) bool { return a && b }
